@@ -127,6 +127,17 @@ class Chief(Role[Person], Symbol):
 
 
 @dataclass(eq=False)
+class Boss(Symbol):
+    """two single-valued fields, the sub-property declared (and assigned by the constructor) before its super-property"""
+    name: str
+    runs: Org = None
+    employed_by: Org = None
+
+    def __repr__(self):
+        return f"Boss({self.name})"
+
+
+@dataclass(eq=False)
 class Visitor(Symbol):
     name: str
 
@@ -219,6 +230,16 @@ class Leads(Chairs):
 
 
 @dataclass
+class EmployedBy(PropertyDescriptor):
+    pass
+
+
+@dataclass
+class Runs(EmployedBy):
+    pass
+
+
+@dataclass
 class SubOrgOf(PropertyDescriptor, TransitiveProperty):
     ...
 
@@ -253,6 +274,8 @@ Unit.under = SubOrgOf(Unit, "under")
 Delegate.attends = Attends(Delegate, "attends")
 Chair.chairs = Chairs(Chair, "chairs")
 Convener.leads = Leads(Convener, "leads")
+Boss.runs = Runs(Boss, "runs")
+Boss.employed_by = EmployedBy(Boss, "employed_by")
 Org.wholly_owned_by = WhollyOwnedBy(Org, "wholly_owned_by")
 Org.part_of = PartOf(Org, "part_of")
 Org.has_part = HasPart(Org, "has_part")
@@ -262,4 +285,4 @@ PERSON_CLASSES = {"Person": Person, "Employee": Employee, "Manager": Manager, "V
 ORG_CLASSES = {"Org": Org, "Dept": Dept}
 ODD_CLASSES = {"Bag": Bag, "Crate": Crate}
 ALL_CLASSES = {**PERSON_CLASSES, **ORG_CLASSES, "SeasonalA": SeasonalA, "SeasonalB": SeasonalB, "Loose": Loose, "Chief": Chief, "VOrg": VOrg, "VPerson": VPerson, "Unit": Unit,
-               "Visitor": Visitor, "Delegate": Delegate, "Chair": Chair, "Convener": Convener}
+               "Visitor": Visitor, "Delegate": Delegate, "Chair": Chair, "Convener": Convener, "Boss": Boss}
